@@ -98,7 +98,7 @@ func c15ErrorCases() map[string]interface{} {
 		"map values differing":                                 map[string]interface{}{"a": 1, "b": "x"},
 		"chan":                                                 make(chan int), "func": func() {}, "complex": complex(1, 2), "uintptr": uintptr(1),
 		"struct with chan": unsupported{make(chan int)}, "slice of func": []func(){func() {}}, "map with chan values": map[string]chan int{"a": nil},
-		"map with struct keys": map[struct{ A int }]int{{1}: 1},
+		"map with struct keys":       map[struct{ A int }]int{{1}: 1},
 		"nil inside interface slice": []interface{}{nil}, "nil element pointer": []*int{nil},
 		"depth 101": deep(101), "depth 150": deep(150),
 		"duplicate field names": struct {
